@@ -141,7 +141,8 @@ namespace foonathan
                 auto offset = detail::align_offset(stack_.top() + fence, alignment);
 
                 if (!stack_.top()
-                    || fence + offset + size + fence > std::size_t(block_end() - stack_.top()))
+                    || !detail::stack_allocation_fits(fence, offset, size,
+                                                      std::size_t(block_end() - stack_.top())))
                 {
                     // need to grow
                     auto block = arena_.allocate_block();
@@ -151,6 +152,8 @@ namespace foonathan
                     offset = detail::align_offset(stack_.top() + fence, alignment);
 
                     auto needed = fence + offset + size + fence;
+                    if (needed < size)
+                        needed = std::size_t(-1); // sum overflowed
                     detail::check_allocation_size<bad_allocation_size>(needed, block.size, info());
                 }
 
